@@ -149,7 +149,7 @@ def main(tier, seed):
         chk.broken.append('the protocol recorder never saw a nested Begin/End')
     chk.set('features_covered', sorted(feats))
 
-    chk.cov['evaluations'] = chk.cov.get('reads', 0) + chk.cov.get('p_executions', 0)
+    chk.cov['evaluations'] = chk.cov.get('reads', 0) + chk.cov.get('p_reads', 0)
     vcheck.finalize_classes(chk)
     chk.set('rule',
             'Layer L: for each of the base files (every segment kind C L O V F G J S(4 kinds x int/real) b r(+compl) K k x d, '
